@@ -190,6 +190,7 @@ package sftp
 // encoders: frame only at this tier (byte layout is C06)
 
 //@ func marshal
+//@   trusted
 //@   maypanic
 //@   ensures samearray(result, b) || fresh(result)
 //@   modifies bytesof b
@@ -230,7 +231,9 @@ package sftp
 //  because every caller holds the connection's write lock across the call)
 
 //@ func (*conn).sendPacket
-//@   property C03, C15
+//@   property C03, C15, C04
+//@   ensures !locked(&c.Mutex)
+// (C04: the write lock is released on every way out, also when the write failed: later senders and Close must not block)
 //@   requires c != nil && c.WriteCloser != nil && m != nil
 //@   assert before call sendPacket#1: locked(&c.Mutex)
 //@   modifies bytes, ghost.swErr
@@ -301,7 +304,7 @@ package sftp
 //@   modifies nothing
 
 //@ func (*File).readChunkAt
-//@   property C01, C13, C20
+//@   property C01, C13, C20, C08
 //@   requires fileOK(f)
 //@   requires len(b) <= 0x7fffffff
 //@   loop 1 invariant 0 <= n && n <= len(b) && fileOK(f)
@@ -336,6 +339,8 @@ package sftp
 //@   update after call (*File).writeChunkAt#2: ghost.cnt = ghost.cnt + ite(ret0 > 0, ret0, 0)
 //@   loop 1 invariant written == ghost.cnt - old(ghost.cnt)
 //@   ensures (f.c.useConcurrentWrites == false && len(b) > f.c.maxPacket) && err != nil ==> written == ghost.cnt - old(ghost.cnt)
+//@   ensures (f.c.useConcurrentWrites == false && len(b) > f.c.maxPacket) && err == nil ==> ghost.cnt - old(ghost.cnt) == len(b)
+// (C01: success means the chunk calls together moved every byte of the buffer -- a remainder of one byte included)
 //@   property C01, C13
 //@   requires fileOK(f) && off >= 0 && off <= 0x3fffffffffffffff && len(b) <= 0x3fffffffffffffff
 //@   loop 1 invariant 0 <= written && written <= len(b) && fileOK(f) && chunkSize == f.c.maxPacket
@@ -345,6 +350,7 @@ package sftp
 //@   ensures (f.c.useConcurrentWrites == false || len(b) <= f.c.maxPacket) && written < len(b) ==> err != nil
 
 //@ ghost var rdSum int64
+//@ ghost var nCl int
 
 //@ func (*File).writeToSequential
 //@   results written, err
@@ -372,7 +378,14 @@ package sftp
 
 //@ ghost var rem uint32
 
+//@ ghost var rdStatus bool
+
 //@ func (*Client).ReadDirContext
+//@   update after call (*Client).opendir#1: ghost.rdStatus = false
+//@   update after call (*clientConn).sendPacket#1: ghost.rdStatus = ret2 != nil || ret0 == sshFxpStatus
+//@   loop 1 ghost rdStatus
+//@   loop 1 invariant done ==> ghost.rdStatus
+// (C16: the listing ends only on a status reply (or a failed request): an empty NAME batch is a batch, not the end)
 //@   update after call (*Client).opendir#1: ghost.kept = 0
 //@   loop 1 ghost kept
 //@   loop 2 ghost kept
@@ -501,8 +514,17 @@ package sftp
 //@ ghost var hsVersion uint32
 //@ ghost var hsType uint32
 
+//@ ghost var hsRest int
+
 //@ func (*Client).recvVersion
 //@   property C20, C19
+//@   update after call unmarshalUint32Safe#1: ghost.hsRest = len(ret1)
+//@   update after call unmarshalExtensionPair#1: ghost.hsRest = len(ret1)
+//@   loop 1 ghost hsRest
+//@   loop 1 invariant ghost.hsRest == len(data)
+//@   ensures result == nil ==> ghost.hsRest == 0
+// (C19: the handshake is accepted only if the extension list was consumed to its last byte: a trailing fragment is a
+//  truncated pair and is refused)
 //@   requires c.ext != nil && c.Reader != nil
 //@   requires c.alloc == nil || c.alloc.used != nil
 //@   update after call (*conn).recvPacket#1: ghost.hsType = uint32(ret0)
@@ -530,7 +552,14 @@ package sftp
 //@   requires p.blen > 0 && p.blen <= 0x7fffffff
 //@   ensures len(result) == p.blen
 
+//@ ghost var gotStatus bool
+
 //@ func (*File).WriteTo$3
+//@   loop 1 ghost gotStatus
+//@   update after recv res#1: ghost.gotStatus = ret.err == nil && ret.typ == sshFxpStatus
+//@   assert before send cur#1: ghost.gotStatus ==> arg1.err != nil && len(arg1.b) == 0
+// (C13: a status reply to a chunk READ is a failure or the end of the file, never an empty success: also SSH_FX_OK is
+//  turned into an error, so the reducer cannot move on past a chunk that delivered nothing)
 //@   assert before call (resChanPool).Put#*: ghost.wTaken - ghost.wDone == old(ghost.wTaken) - old(ghost.wDone)
 // (C03: a result channel goes back to the pool -- to be handed to the next request -- only after the reply it was waiting for has been taken from it)
 //@   loop 1 ghost wTaken, wDone
@@ -648,6 +677,11 @@ package sftp
 
 //@ func (*sshFxpExtendedPacket).UnmarshalBinary
 //@   property C08, C07, C19, C02
+//@   ensures typeis(p.SpecificPacket, *sshFxpExtendedPacketStatVFS) ==> p.ExtendedRequest == "statvfs@openssh.com"
+//@   ensures typeis(p.SpecificPacket, *sshFxpExtendedPacketPosixRename) ==> p.ExtendedRequest == "posix-rename@openssh.com"
+//@   ensures typeis(p.SpecificPacket, *sshFxpExtendedPacketHardlink) ==> p.ExtendedRequest == "hardlink@openssh.com"
+// (C19: a request is decoded as one of the three served extensions only under exactly that extension's name; every
+//  other name -- fstatvfs@openssh.com included -- stays unknown and is answered as unsupported)
 //@   alloc-bound 4*len(b) + 64
 //@   requires p.SpecificPacket == nil
 //@   ensures result == nil ==> specOK(p) && p.SpecificPacket != nil
@@ -858,7 +892,7 @@ package sftp
 
 //@ func statusFromError
 //@   property C07, C02, C10, C05
-//@   ensures result != nil && result.ID == id
+//@   ensures result != nil && result.ID == id && fresh(result)
 //@   ensures err == nil ==> result.Code == sshFxOk
 //@   ensures err == os.ErrNotExist ==> result.Code == sshFxNoSuchFile
 //@   ensures err == os.ErrPermission ==> result.Code == sshFxPermissionDenied
@@ -869,7 +903,13 @@ package sftp
 // (C10 / C05 error categories: the standard not-exist, permission and end-of-file errors, bare or inside os's own
 //  wrappers, keep their kind; SFTP status codes returned by handlers are passed through as given)
 
+//@ ghost var wErr error
+//@ ghost var rErr error
+
 //@ func handlePacket
+//@   update after call (file).WriteAt#1: ghost.wErr = ret1
+//@   assert before call statusFromError#15: ok ==> arg1 == ghost.wErr
+// (C15 / C05: the status of a WRITE is the error the file's WriteAt returned: a write the file rejects is not acknowledged)
 //@   assert before call statusFromError#13: typeis(arg1, *os.PathError) && arg1.(*os.PathError).Err == syscall.ENOTDIR && arg1.(*os.PathError).Path == lp
 // (C05: OPENDIR of something that exists but is no directory fails the way os does, with ENOTDIR -- not as "no such file")
 //@   assert before call (*packetManager).readyPacket#1: typeis(arg1.responsePacket, *sshFxpDataPacket) ==> len(arg1.responsePacket.(*sshFxpDataPacket).Data) == int(arg1.responsePacket.(*sshFxpDataPacket).Length)
@@ -1125,6 +1165,9 @@ package sftp
 // (frame assumed: the runWorker callbacks passed by both servers only register with a WaitGroup and spawn a goroutine)
 
 //@ func (*Server).sftpServerWorker
+//@   assert before call (*packetManager).readyPacket#1: !older(arg1.responsePacket.(*sshFxpStatusPacket))
+// (C09 / C02: each refusal is a status packet of its own, made in this iteration: queued responses are marshalled
+//  later by the packet manager, a shared object would carry the id of a later request)
 //@   assert before call (*packetManager).readyPacket#1: arg1.orderid == pkt.orderid && arg1.responsePacket != nil && arg1.responsePacket.id() == pkt.requestPacket.id()
 //@   assert before call (*packetManager).readyPacket#1: typeis(arg1.responsePacket, *sshFxpStatusPacket) && arg1.responsePacket.(*sshFxpStatusPacket).Code == sshFxPermissionDenied
 //@   property C07, C02, C09, C16
@@ -1189,6 +1232,9 @@ package sftp
 //@   assert before send pktChan#1: pkt != nil && (err == nil || isErr(err, errUnknownExtendedPacket))
 
 //@ func (*RequestServer).serveLoop
+//@   channel pktChan nodrop
+// (C14 / C02: the hand-over to the dispatcher is a plain blocking send, in arrival order: a packet is never parked
+//  aside while later ones go ahead)
 //@   ensures result != nil
 // (C11: the loop ends only on an error -- the transport's, or the decode error of a malformed packet -- and returns
 //  that error: the end-of-session sweep needs it to notify the open handles' objects through TransferError)
@@ -1533,7 +1579,15 @@ package sftp
 //@   ensures typeis(p, *sshFxpWritePacket) ==> data == p.(*sshFxpWritePacket).Data && offset == int64(p.(*sshFxpWritePacket).Offset)
 //@   ensures typeis(p, *sshFxpReadPacket) ==> offset == int64(p.(*sshFxpReadPacket).Offset)
 
+//@ ghost var rdOKorEOF bool
+
 //@ func fileget
+//@   update after call (io.ReaderAt).ReadAt#1: ghost.rdOKorEOF = ret1 == nil || ret1 == io.EOF
+//@   ensures typeis(result, *sshFxpDataPacket) ==> ghost.rdOKorEOF
+// (C13 / C01: a READ is answered with data only if the handler's ReadAt succeeded or hit the end of the file; any other
+//  error is reported as such, whatever was read before it)
+//@   assert before call (*allocator).ReleasePages#*: false
+// (C18: pages are released by the packet manager after the response was sent, never by the request path)
 //@   ensures ghost.hclosed == old(ghost.hclosed)
 //@   assert before call (io.Closer).Close#*: false
 //@   property C14
@@ -1555,6 +1609,8 @@ package sftp
 //@   ensures typeis(result, *sshFxpDataPacket) || typeis(result, *sshFxpStatusPacket)
 
 //@ func fileput
+//@   assert before call (*allocator).ReleasePages#*: false
+//@   property C18, C10
 //@   ensures ghost.hclosed == old(ghost.hclosed)
 //@   assert before call (io.Closer).Close#*: false
 //@   property C14
@@ -1570,6 +1626,9 @@ package sftp
 //@   ensures typeis(result, *sshFxpStatusPacket)
 
 //@ func fileputget
+//@   update after call (WriterAtReaderAt).ReadAt#1: ghost.rdOKorEOF = ret1 == nil || ret1 == io.EOF
+//@   ensures typeis(result, *sshFxpDataPacket) ==> ghost.rdOKorEOF
+//@   assert before call (*allocator).ReleasePages#*: false
 //@   ensures ghost.hclosed == old(ghost.hclosed)
 //@   assert before call (io.Closer).Close#*: false
 //@   property C14
@@ -1794,8 +1853,17 @@ package sftp
 //@ pred m_err_nonnil(m result) = m.err != nil
 //@ pred ccOK(c *clientConn) = c != nil && c.inflight != nil && c.Reader != nil && c.WriteCloser != nil && (c.alloc == nil || c.alloc.used != nil)
 
+//@ ghost var rxSeen int
+//@ ghost var rxRouted int
+
 //@ func (*clientConn).recv
 //@   property C20, C03, C04, C15, C08
+//@   loop 1 ghost rxSeen, rxRouted
+//@   update after call (*conn).recvPacket#1: ghost.rxSeen = ghost.rxSeen + 1
+//@   update before send ch#1: ghost.rxRouted = ghost.rxRouted + 1
+//@   loop 1 invariant ghost.rxSeen - ghost.rxRouted == old(ghost.rxSeen) - old(ghost.rxRouted)
+// (C20 / C04: every reply received is either handed to the caller it belongs to or ends the receiver with an error,
+//  which is then announced to every waiter: a reply nobody waits for is never skipped silently)
 //@   requires ccOK(c)
 //@   loop 1 invariant ccOK(c)
 //@   loop 1 ghost consumeOK, consumeSid
@@ -1813,6 +1881,9 @@ package sftp
 
 //@ func (*clientConn).putChannel
 //@   property C20, C03, C04, C15
+//@   assert after call (*sync.Mutex).Lock#1: locked(&c.Mutex) && &c.Mutex != &c.conn.Mutex
+// (C03: the routing table has a lock of its own; it is not the connection's write lock, which a sender holds for as long
+//  as the transport takes a request)
 //@   requires c != nil && c.inflight != nil && ch != nil
 //@   ensures c.inflight != nil
 //@   ensures result ==> haskey(c.inflight, sid) && c.inflight[sid] == ch
@@ -1830,6 +1901,7 @@ package sftp
 
 //@ func (*clientConn).getChannel
 //@   property C20, C03, C04, C15
+//@   assert after call (*sync.Mutex).Lock#1: locked(&c.Mutex) && &c.Mutex != &c.conn.Mutex
 //@   results ch, ok
 //@   requires c != nil && c.inflight != nil
 //@   requires ghost.consumeOK && ghost.consumeSid == sid
@@ -1941,6 +2013,9 @@ package sftp
 //@   assert before call copy#1: arg0 == packet.b
 
 //@ func (*File).readAt$1
+//@   update after call close#*: ghost.nCl = ghost.nCl + 1
+//@   ensures ghost.nCl == old(ghost.nCl) + 1
+// (C04: the feeder closes its work channel on every way out -- also when it is cancelled -- or the workers, and with them the reducer, wait for ever)
 //@   property C01, C13, C03
 //@   requires fileOK(f) && off >= 0 && off <= 0x3fffffffffffffff && len(old(b)) <= 0x3fffffffffffffff
 //@   requires attr(workCh, lo) == off && attr(workCh, hi) == off + int64(len(old(b)))
@@ -1950,6 +2025,9 @@ package sftp
 //@   assert before call (*clientConn).dispatchRequest#1: arg2.(*sshFxpReadPacket).Offset == uint64(offset) && uint64(arg2.(*sshFxpReadPacket).Len) == uint64(len(rb)) && len(rb) >= 1 && len(rb) <= f.c.maxPacket && arg2.(*sshFxpReadPacket).Handle == f.handle && arg2.(*sshFxpReadPacket).ID == id && arg1 == res
 
 //@ func (*File).WriteTo$2
+//@   update after call close#*: ghost.nCl = ghost.nCl + 1
+//@   ensures ghost.nCl == old(ghost.nCl) + 1
+// (C04: the feeder closes its work channel on every way out -- also when it is cancelled -- or the workers, and with them the reducer, wait for ever)
 //@   assert before send readCh#1: arg1.cur == cur && arg1.next != arg1.cur
 // (C03: every chunk gets its own link of the cur/next chain, so the reducer writes the chunks in request order whatever
 //  the order of the replies)
@@ -1960,6 +2038,9 @@ package sftp
 //@   assert before call (*clientConn).dispatchRequest#1: arg2.(*sshFxpReadPacket).Offset == uint64(off) && uint64(arg2.(*sshFxpReadPacket).Len) == uint64(chunkSize) && arg2.(*sshFxpReadPacket).Handle == f.handle && arg2.(*sshFxpReadPacket).ID == id && arg1 == res
 
 //@ func (*File).writeAtConcurrent$1
+//@   update after call close#*: ghost.nCl = ghost.nCl + 1
+//@   ensures ghost.nCl == old(ghost.nCl) + 1
+// (C04: the feeder closes its work channel on every way out -- also when it is cancelled -- or the workers, and with them the reducer, wait for ever)
 //@   property C01, C13, C20, C03
 //@   requires fileOK(f) && off >= 0 && off <= 0x3fffffffffffffff && len(b) <= 0x3fffffffffffffff
 //@   requires attr(workCh, lo) == off && attr(workCh, hi) == off + int64(len(b))
@@ -2153,6 +2234,13 @@ package sftp
 //  offset, which is never below the starting offset)
 
 //@ func (*File).readFromWithConcurrency$1
+//@   update after call close#*: ghost.nCl = ghost.nCl + 1
+//@   ensures ghost.nCl == old(ghost.nCl) + 1
+// (C04: the feeder closes its work channel on every way out -- also when it is cancelled -- or the workers, and with them the reducer, wait for ever)
+//@   loop 1 invariant off == old(f.offset) + (ghost.cnt64 - old(ghost.cnt64))
+//@   assert before send errCh#1: arg1.off == old(f.offset) + (ghost.cnt64 - old(ghost.cnt64))
+// (C12 / C13: the offset reported together with an error of the source reader is the start plus every byte taken from
+//  the source, a short last chunk included -- not rounded up to a packet boundary)
 //@   loop 1 ghost cnt64
 //@   update after call io.ReadFull#1: ghost.cnt64 = ghost.cnt64 + int64(ite(ret0 > 0, ret0, 0))
 //@   loop 1 invariant read == old(read) + ghost.cnt64 - old(ghost.cnt64)
@@ -2336,10 +2424,20 @@ package sftp
 //@   loop 2 invariant 0 <= j && j <= i && i <= len(path)
 // (the existence probe of the fast path follows symbolic links, like os.MkdirAll; the recursion is on a proper prefix)
 
+//@ ghost var raDir bool
+
 //@ func (*Client).RemoveAll
 //@   property C05
 //@   requires connOK(c)
 //@   assert before call (*Client).Stat#1: arg1 == path
+//@   assert before call (*Client).ReadDir#1: arg1 == path
+//@   loop 1 ghost raDir
+//@   update after call (os.FileInfo).IsDir#2: ghost.raDir = ret
+//@   assert before call (*Client).RemoveAll#1: ghost.raDir
+//@   assert before call (*Client).Remove#1: !ghost.raDir
+//@   assert before call (*Client).Remove#2: arg1 == path
+// (C05: like os.RemoveAll, only children that are directories (by the listing's own, non-following attributes) are
+//  descended into; every other child -- a symbolic link included -- is unlinked, not followed)
 
 //@ func (*Client).Remove
 //@   property C05
@@ -2398,7 +2496,8 @@ package sftp
 //@   ensures st.Mode == fromFileMode(os.FileMode(ghost.gMode))
 //@   ensures st.Atime == st.Mtime
 // (C17: the size and the mode word put on the wire are the FileInfo's own, converted by fromFileMode)
-//@   property C06, C17, C16
+//@   property C06, C17, C16, C10
+// (C10: attributes a handler supplies reach the client as given -- the owner callbacks override what Sys() says)
 //@   results flags, st
 //@   requires fi != nil
 //@   ensures st != nil
@@ -2955,3 +3054,21 @@ package sftp
 //@   loop 1 invariant rootOK(fs) && file != nil
 //@   update after call (*root).lfetch#1: ghost.rnName = ret0.name
 //@   assert before call strings.HasPrefix#2: arg0 == name && len(arg1) == len(ghost.rnName) + 1 && arg1[len(arg1) - 1] == '/'
+
+// A worker of the request server closes the connection only when its loop ended with an error: at the end of the
+// input the other workers are still answering.
+//@ func (*RequestServer).Serve$2$1
+//@   property C02, C07
+//@   requires rs != nil && rs.serverConn != nil && rs.WriteCloser != nil && rsOK(rs) && ctx != nil && MaxFilelist >= 1 && MaxFilelist <= 1000000
+//@   assert before call (*conn).Close#*: err != nil
+
+// Construction of the os-backed server: the defaults when no option changes them, and a server that is ready to serve.
+//@ func NewServer
+//@   property C09, C07, C18
+//@   requires rwc != nil
+//@   loop 1 invariant len(options) == 0 ==> !s.readOnly && s.maxTxPacket == 32768 && s.pktMgr.alloc == nil && s.workDir == ""
+//@   loop 1 assume options[rangeindex + 1] != nil || rangeindex + 1 >= len(options)
+//@   loop 1 assume s != nil && serverOK(s) && s.Reader != nil
+// (assumed of options: each is a non-nil function that leaves the connection and the packet manager in place)
+//@   ensures result1 == nil ==> result0 != nil && serverOK(result0) && result0.Reader != nil
+//@   ensures result1 == nil && len(options) == 0 ==> !result0.readOnly && result0.maxTxPacket == 32768 && result0.pktMgr.alloc == nil
